@@ -26,3 +26,16 @@ Theorem C02_resident_pessimal : forall R H cap fuel out,
   exists h', In h' (mu r) /\ (h' = h \/ better (j_rkR R) r h' h).
 Proof. exact C02_hosp_pessimal. Qed.
 Print Assumptions C02_resident_pessimal.
+
+(* Uniqueness: ANY stable matching that is resident-optimal in the above sense coincides with the result. The output is
+   therefore a function of the instance alone: renumbering the participants, or processing the free residents in another
+   order, can only produce the correspondingly renumbered matching (the equivariance the property states). *)
+Theorem C02_resident_optimal_matching_is_unique : forall R H cap fuel out,
+  strictb R (length H) = true -> strictb H (length R) = true ->
+  gs_res_run R H cap fuel = Some out ->
+  forall mu, stableM (i_pl R) (i_rkH H) (fun _ => 1) cap (seq 0 (length H)) mu ->
+  (forall nu, stableM (i_pl R) (i_rkH H) (fun _ => 1) cap (seq 0 (length H)) nu ->
+     forall p h, In p (nu h) -> exists h', In p (mu h') /\ (h' = h \/ before (i_pl R p) h' h)) ->
+  forall p h, In p (mu h) <-> In p (mu_of_hospital out h).
+Proof. exact C02_res_unique. Qed.
+Print Assumptions C02_resident_optimal_matching_is_unique.
